@@ -360,14 +360,34 @@ func (c *Cond) Broadcast() {
 	c.g.Unlock()
 }
 
-// Pool replaces sync.Pool and never pools: a pooled *time.Timer crossing from one synctest
-// bubble into the next is a fatal runtime error.
+// Pool replaces sync.Pool. Objects are pooled only WITHIN one simulated run: a pooled *time.Timer
+// (internal/pool) crossing from one synctest bubble into the next is a fatal runtime error, so the
+// pool forgets everything it holds when the installed scheduler changes. Within a run it behaves as
+// a LIFO free list — deterministic, and the most aggressive reuse a real sync.Pool can show, so that
+// code relying on "a fresh object" (an undrained channel, a stale field) is exposed.
 type Pool struct {
 	New func() any
+
+	mu    rsync.Mutex
+	owner *simhook.Sched
+	items []any
 }
 
-// Get returns New() or nil.
+// Get returns a pooled object of the current run, else New(), else nil.
 func (p *Pool) Get() any {
+	cur := simhook.Current()
+	p.mu.Lock()
+	if p.owner != cur {
+		p.owner, p.items = cur, nil
+	}
+	if n := len(p.items); n > 0 {
+		x := p.items[n-1]
+		p.items = p.items[:n-1]
+		p.mu.Unlock()
+
+		return x
+	}
+	p.mu.Unlock()
 	if p.New != nil {
 		return p.New()
 	}
@@ -375,8 +395,18 @@ func (p *Pool) Get() any {
 	return nil
 }
 
-// Put drops x.
-func (p *Pool) Put(x any) {}
+// Put returns x to the current run's free list.
+func (p *Pool) Put(x any) {
+	cur := simhook.Current()
+	p.mu.Lock()
+	if p.owner != cur {
+		p.owner, p.items = cur, nil
+	}
+	if len(p.items) < 64 {
+		p.items = append(p.items, x)
+	}
+	p.mu.Unlock()
+}
 
 // Map is sync.Map (its critical sections never block, so the real one is safe in a bubble).
 type Map = rsync.Map
